@@ -7,6 +7,7 @@ import (
 	"bufio"
 	"context"
 	"encoding/json"
+	"errors"
 	"fmt"
 	"io"
 	"os"
@@ -33,9 +34,10 @@ type DropIn struct {
 }
 
 type Scenario struct {
-	Entries []Entry  `json:"entries"`
-	DropIns []DropIn `json:"dropins"`
-	Stale   bool     `json:"stale"` // the runtime's own environment carries NRI_PLUGIN_* variables
+	Entries   []Entry  `json:"entries"`
+	DropIns   []DropIn `json:"dropins"`
+	Stale     bool     `json:"stale"`     // the runtime's own environment carries NRI_PLUGIN_* variables
+	SyncFails bool     `json:"syncfails"` // the runtime's synchronization callback fails
 }
 
 const regTimeout = 400 * time.Millisecond
@@ -133,12 +135,15 @@ func one(scn int, sc Scenario, probe string, w *rec.Writer) error {
 	for _, d := range sc.DropIns {
 		os.WriteFile(filepath.Join(cdir, d.File), []byte(d.Content), 0o644)
 	}
-	add("Begin", "entries", sc.Entries, "dropins", sc.DropIns)
+	add("Begin", "entries", sc.Entries, "dropins", sc.DropIns, "syncfails", sc.SyncFails)
 	// the runtime deliberately holds other open files and a listening socket while launching
 	extra, _ := os.CreateTemp(root, "runtime-open-file")
 	defer extra.Close()
 	ad, err := adaptation.New("verif", "1", func(ctx context.Context, cb adaptation.SyncCB) error {
 		_, e := cb(ctx, nil, nil)
+		if sc.SyncFails {
+			return errors.New("verif: the runtime cannot synchronize")
+		}
 		return e
 	}, func(context.Context, []*api.ContainerUpdate) ([]*api.ContainerUpdate, error) { return nil, nil },
 		adaptation.WithPluginPath(pdir), adaptation.WithPluginConfigPath(cdir),
